@@ -1,8 +1,8 @@
 """C09 — bus bridges and AXI-Lite converters preserve memory semantics and protocol rules."""
-import time
-from explore import Job, run_jobs, replay_with_monitor, impl_step, Disagreement
+import time, os, json, glob
+from explore import Job, run_jobs, replay_with_monitor, impl_step, Disagreement, _masked_equal
 import c09lib as L
-from c09lib import (PortInst, Env, AxlMaster, WbMaster, WbPartner, AxlPartner, CsrPartner, BridgeMonitor, AxiMaster,
+from c09lib import (PortInst, MonitorOnlyInst, AxiSinglePartner, Env, AxlMaster, WbMaster, WbPartner, AxlPartner, CsrPartner, BridgeMonitor, AxiMaster,
                     AhbMaster)
 from migen import Module
 from litex.soc.interconnect import wishbone
@@ -15,6 +15,8 @@ FMT = ("letter = master-driven signals of the master-side bus ++ slave-driven si
        "AXI-Lite master: awvalid awaddr wvalid wdata wstrb bready arvalid araddr rready; AXI-Lite slave: awready "
        "wready bvalid bresp arready rvalid rresp rdata; Wishbone master: cyc stb we adr sel datw; Wishbone slave: "
        "ack datr err (see harness/c09lib.py)")
+
+MAKERS = {}
 
 # timing policies of the memory partners: (name, kwargs)
 WB_POL = {"fast": dict(p_ack=1.0), "slow": dict(p_ack=0.15), "mixed": dict(p_ack=0.5)}
@@ -157,8 +159,9 @@ def mk_axldown(dw_from, dw_to, aw, pol=None, master="single", small=None, p_err=
     dom = None
     amax = (1 << aw) - 1
     fullw = (1 << dw_from) - 1
-    if small == "w":
-        dom = {"m.awaddr": (0, amax), "m.wdata": (0xA5C3 & fullw,), "m.wstrb": tuple(range(1 << nbf)),
+    if small in ("w", "w6"):
+        strbs = tuple(range(1 << nbf)) if small == "w" else (0, 1, 2, 8, 10, 15)
+        dom = {"m.awaddr": (0, amax), "m.wdata": (0xA5C3 & fullw,), "m.wstrb": strbs,
                "m.arvalid": (0,), "m.araddr": (0,), "m.rready": (0,),
                "s.arready": (0,), "s.rvalid": (0,), "s.rresp": (0,), "s.rdata": (0,), "s.bresp": (0, 2)}
     elif small == "r":
@@ -267,9 +270,112 @@ def mk_ahb2wb(dw, aw, addressing="word", pol=None, small=False, p_err=0.0, tag="
         mon = lambda inst: BridgeMonitor(inst, "ahb", "wb", nb, nb, lambda a: a, s_amap, errs=True)
     dom = None
     if small:
-        dom = {"haddr": tuple(range(1 << aw)) if aw <= 3 else (0, (1 << aw) - 1), "hsize": (0, 1, 2, 3),
+        dom = {"haddr": tuple(range(nb)) + ((1 << aw) - 1,), "hsize": (0, 1, 2, 3),
                "htrans": (2, 3), "hwdata": ((1 << dw) - 2,), "datr": ((1 << dw) - 3,)}
     return PortInst(name, m, "ahb2wb %d %d" % (lg, shift), "ahb", hb, "wb", wb, dom=dom, env=env, monitor=mon)
+
+
+def mk_axi2wb(dw, aw, base=0, pol=None, small=False, tag=""):
+    nb = dw // 8
+    shift = log2(nb)
+    axi = AXIInterface(data_width=dw, address_width=aw, id_width=2)
+    wb = wishbone.Interface(data_width=dw, adr_width=aw - shift, addressing="word")
+    m = AXI2Wishbone(axi, wb, base_address=base)
+    name = "AXI2Wishbone(dw=%d,aw=%d,base=0x%x)%s" % (dw, aw, base, tag)
+    env = mon = None
+    mask = (1 << aw) - 1
+    if pol is not None:
+        s_amap = lambda adr: (adr << shift) & ~(nb - 1)
+        env = Env(AxiMaster(aw, nb), WbPartner(nb, amap=s_amap, **WB_POL[pol]), "wb")
+        name += "/" + pol
+        mon = lambda inst: BridgeMonitor(inst, "axi", "wb", nb, nb, lambda a: (a - base) & mask, s_amap, errs=True)
+    dom = None
+    if small:
+        dom = {"m.awaddr": (2,), "m.awburst": (1,), "m.awlen": (1,), "m.awsize": (0,), "m.awid": (2,),
+               "m.wdata": (5,), "m.wstrb": (1,), "m.wlast": (0, 1), "m.araddr": (1,), "m.arburst": (1,), "m.arlen": (1,),
+               "m.arsize": (0,), "m.arid": (1,), "m.bready": (1,), "s.datr": (9,), "s.err": (0,)}
+    return PortInst(name, m, "axi2wb %d %d %d %d" % (aw, nb, shift, base), "axi", axi, "wb", wb, dom=dom, env=env,
+                    monitor=mon)
+
+
+def mk_wb2axi(dw, aw, base=0, pol=None, small=False, tag=""):
+    nb = dw // 8
+    shift = log2(nb)
+    wb = wishbone.Interface(data_width=dw, adr_width=aw - shift, addressing="word")
+    axi = AXIInterface(data_width=dw, address_width=aw, id_width=1)
+    m = Wishbone2AXI(wb, axi, base_address=base)
+    name = "Wishbone2AXI(dw=%d,aw=%d,base=0x%x)%s" % (dw, aw, base, tag)
+    env = mon = None
+    mask = (1 << aw) - 1
+    if pol is not None:
+        env = Env(WbMaster(len(wb.adr), nb), AxiSinglePartner(nb, **AXL_POL[pol]), "axi")
+        name += "/" + pol
+        mon = lambda inst: BridgeMonitor(inst, "wb", "axi", nb, nb, lambda adr: (((adr << shift) - base) & mask) & ~(nb - 1),
+                                         lambda a: a, errs=True)
+    dom = None
+    if small:
+        amax = (1 << len(wb.adr)) - 1
+        dom = {"adr": (0, amax), "datw": ((1 << dw) - 1,), "sel": ((1 << nb) - 1,), "rdata": ((1 << dw) - 2,),
+               "bresp": (0, 2), "rresp": (0, 3), "bid": (0,), "rid": (0,), "rlast": (1,)}
+    return PortInst(name, m, "wb2axi %d %d %d %d" % (len(wb.adr), shift, base, shift), "wb", wb, "axi", axi, dom=dom,
+                    env=env, monitor=mon)
+
+
+def mk_adapter(master_kind, master_dw, bus_std, bus_dw, direction, pol, aw=32, tag=""):
+    """The adapter chain `SoCBusHandler.add_adapter` inserts between an interface of one standard/width and a bus of
+    another (direction m2s: the interface is a master of the bus; s2m: it is a slave of the bus).  The harness
+    drives the master end and plays the memory at the slave end; monitors only."""
+    from litex.soc.integration.soc import SoCBusHandler
+    mk_if = {"wishbone": lambda dw: wishbone.Interface(data_width=dw, adr_width=aw - log2(dw // 8), addressing="word"),
+             "axi-lite": lambda dw: AXILiteInterface(data_width=dw, address_width=aw),
+             "axi": lambda dw: AXIInterface(data_width=dw, address_width=aw, id_width=1),
+             "ahb": lambda dw: ahb.AHBInterface(data_width=dw, address_width=aw)}
+    kind = {"wishbone": "wb", "axi-lite": "axl", "axi": "axi", "ahb": "ahb"}
+    bus = SoCBusHandler(standard=bus_std, data_width=bus_dw, address_width=aw)
+    itf = mk_if[master_kind](master_dw)
+    other = bus.add_adapter("probe", itf, direction)
+    if direction == "m2s":
+        m_itf, m_k, m_dw, s_itf, s_k, s_dw = itf, kind[master_kind], master_dw, other, kind[bus_std], bus_dw
+    else:
+        m_itf, m_k, m_dw, s_itf, s_k, s_dw = other, kind[bus_std], bus_dw, itf, kind[master_kind], master_dw
+    mnb, snb = m_dw // 8, s_dw // 8
+    name = "add_adapter(%s/%d %s %s/%d)/%s%s" % (master_kind, master_dw, "->" if direction == "m2s" else "<-", bus_std,
+                                                 bus_dw, pol, tag)
+    serial = dict(max_out=1, order="aw_first")
+    master = {"wb": lambda: WbMaster(len(m_itf.adr), mnb) if m_k == "wb" else None,
+              "axl": lambda: AxlMaster(aw, mnb, **serial),
+              "axi": lambda: AxiMaster(aw, mnb, max_len=3, ids=2),
+              "ahb": lambda: AhbMaster(aw, mnb)}[m_k]()
+    if s_k == "wb":
+        s_amap = lambda adr: (adr * snb)
+        partner = WbPartner(snb, amap=s_amap, **WB_POL[{"fast": "fast", "slow": "slow"}.get(pol, "mixed")])
+    elif s_k == "axl":
+        s_amap = lambda a: a & ~(snb - 1)
+        partner = AxlPartner(snb, **dict(AXL_POL[pol], **AXI2AXL_PARTNER))
+    else:
+        s_amap = lambda a: a
+        partner = AxiSinglePartner(snb, **dict(AXL_POL[pol], **AXI2AXL_PARTNER))
+    m_amap = {"wb": lambda adr: adr * mnb, "axl": lambda a: a & ~(mnb - 1), "axi": lambda a: a, "ahb": lambda a: a}[m_k]
+    env = Env(master, partner, s_k)
+    mon = lambda inst: BridgeMonitor(inst, m_k, s_k, mnb, snb, m_amap, s_amap, errs=False)
+    return MonitorOnlyInst(name, bus, "unit", m_k, m_itf, s_k, s_itf, env=env, monitor=mon)
+
+
+MAKERS.update(mk_axl2wb=mk_axl2wb, mk_wb2axl=mk_wb2axl, mk_axlsram=mk_axlsram, mk_axl2csr=mk_axl2csr,
+               mk_axldown=mk_axldown, mk_axlup=mk_axlup, mk_axi2axl=mk_axi2axl, mk_ahb2wb=mk_ahb2wb,
+               mk_axi2wb=mk_axi2wb, mk_wb2axi=mk_wb2axi)
+
+ADAPTER_GRID = [
+    # (interface standard, width, bus standard, width, direction, partner policy)
+    ("axi-lite", 32, "wishbone", 32, "m2s", "mixed"), ("axi-lite", 64, "wishbone", 32, "m2s", "fast"),
+    ("axi-lite", 32, "wishbone", 64, "m2s", "slow"), ("wishbone", 32, "axi-lite", 32, "m2s", "accept-early"),
+    ("wishbone", 32, "axi-lite", 32, "s2m", "respond-late"), ("axi-lite", 32, "wishbone", 32, "s2m", "accept-late"),
+    ("axi-lite", 64, "axi-lite", 32, "m2s", "fast"), ("axi-lite", 32, "axi-lite", 64, "m2s", "accept-early"),
+    ("axi", 32, "wishbone", 32, "m2s", "mixed"), ("axi", 32, "axi-lite", 32, "m2s", "fast"),
+    ("ahb", 32, "wishbone", 32, "m2s", "mixed"), ("wishbone", 32, "axi", 32, "m2s", "accept-early"),
+    ("axi-lite", 32, "axi", 32, "m2s", "respond-late"), ("wishbone", 64, "axi-lite", 32, "m2s", "fast"),
+    ("axi-lite", 32, "axi-lite", 64, "s2m", "fast"), ("axi-lite", 64, "axi-lite", 32, "s2m", "accept-late"),
+]
 
 
 def jobs(tier):
@@ -303,7 +409,7 @@ def jobs(tier):
     # ---- AXI-Lite down-converter
     A(lambda: mk_axldown(16, 8, 2, small="w", tag="/write-path"))
     A(lambda: mk_axldown(16, 8, 2, small="r", tag="/read-path"))
-    A(lambda: mk_axldown(32, 8, 3, small="w", tag="/write-path"))
+    A(lambda: mk_axldown(32, 8, 3, small="w6" if quick else "w", tag="/write-path"))
     A(lambda: mk_axldown(32, 8, 3, small="r", tag="/read-path"))
     for (f, t) in ((64, 32), (32, 8), (64, 8)):
         for k, pol in enumerate(AXL_POL):
@@ -335,13 +441,25 @@ def jobs(tier):
     B(lambda: mk_axi2axl(32, 32, tag="/garbage"))
     B(lambda: mk_axl2axi(32, 32))
     # ---- AHB2Wishbone
-    A(lambda: mk_ahb2wb(32, 2, small=True))
-    A(lambda: mk_ahb2wb(64, 3, small=True))
+    A(lambda: mk_ahb2wb(32, 3, small=True))
+    A(lambda: mk_ahb2wb(64, 4, small=True))
     for pol in WB_POL:
         B(lambda pol=pol: mk_ahb2wb(32, 32, pol=pol))
     B(lambda: mk_ahb2wb(64, 32, pol="mixed"))
     B(lambda: mk_ahb2wb(32, 16, addressing="byte", pol="mixed"))
     B(lambda: mk_ahb2wb(64, 32, tag="/garbage"))
+    # ---- AXI2Wishbone / Wishbone2AXI (compositions of the models above)
+    A(lambda: mk_axi2wb(8, 2, base=1, small=True))
+    A(lambda: mk_wb2axi(8, 2, base=0, small=True))
+    for pol in ("fast", "mixed"):
+        B(lambda pol=pol: mk_axi2wb(32, 32, base=0x1000, pol=pol))
+    B(lambda: mk_axi2wb(64, 32, base=0, pol="slow"))
+    for pol in ("accept-early", "respond-late"):
+        B(lambda pol=pol: mk_wb2axi(32, 32, base=0x1000, pol=pol))
+    B(lambda: mk_wb2axi(64, 32, base=0x2000, pol="fast"))
+    # ---- adapter chains inserted by SoCBusHandler.add_adapter (monitors only)
+    for g in ADAPTER_GRID:
+        B(lambda g=g: mk_adapter(*g))
     # ---- Wishbone2AXILite
     A(lambda: mk_wb2axl(8, 2, base=4, small=True))
     A(lambda: mk_wb2axl(16, 3, base=2, small=True))
@@ -353,10 +471,51 @@ def jobs(tier):
     return J
 
 
-def correspond(ctx):
-    ctx.jobs = jobs(ctx.tier)
-    dis, bad = run_jobs(ctx, ctx.jobs)
+CORPUS = os.path.join(os.path.dirname(os.path.dirname(os.path.dirname(os.path.abspath(__file__)))), "corpus", "C09")
+
+
+def corpus_run(ctx):
+    """corpus/C09/*.json: hand-made witnesses (findings, fixed findings, corner cases).  Each is replayed on the real
+    code and on the Lean model (every output of every cycle must agree: the model is the code as it is) and judged
+    by the property monitor; `monitor_fires` records the expected verdict on the current tree."""
+    dis = []
+    n = 0
+    for path in sorted(glob.glob(os.path.join(CORPUS, "*.json"))):
+        w = json.load(open(path))
+        inst = MAKERS[w["make"]["fn"]](*w["make"].get("args", []), **w["make"].get("kwargs", {}))
+        inst.strict_env = False
+        trace = [tuple(l) for l in w["trace"]]
+        ctx.lean.open(inst.lean_open)
+        mouts = ctx.lean.run([list(l) for l in trace])
+        ctx.lean.close_session()
+        mon = inst.monitor()
+        fired = None
+        for t, letter in enumerate(trace):
+            outs = impl_step(inst, letter)
+            if not _masked_equal(inst, outs, mouts[t]):
+                dis.append(Disagreement(inst, trace[:t + 1], t, outs, mouts[t], kind="correspondence"))
+                break
+            m = mon.observe(letter, outs)
+            if m and fired is None:
+                fired = (t, m)
+        n += 1
+        exp = w.get("monitor_fires", False)
+        if fired and not exp:
+            dis.append(Disagreement(inst, trace[:fired[0] + 1], fired[0], None, None,
+                                    kind="monitor:corpus %s: %s" % (os.path.basename(path), fired[1])))
+        elif exp and not fired:
+            ctx.cov.notes.append("corpus %s: the monitor no longer fires (finding %s)" % (os.path.basename(path),
+                                                                                       w.get("finding")))
+        ctx.cov.add_cases("corpus " + os.path.basename(path), len(trace), len(trace), exhaustive=False, mode="corpus")
+    ctx.log("corpus: %d witnesses replayed on code and model" % n)
     return dis
+
+
+def correspond(ctx):
+    dis = corpus_run(ctx)
+    ctx.jobs = jobs(ctx.tier)
+    d2, bad = run_jobs(ctx, ctx.jobs)
+    return dis + d2
 
 
 def closed_loop_search(inst, rng, cycles):
@@ -545,5 +704,27 @@ def probes(ctx):
 
 
 def replay(ctx, payload):
-    from explore import generic_replay
-    return generic_replay(ctx, payload, jobs("thorough"))
+    """`./check C09 --replay FILE`: re-execute the failing input on the real code with the property monitor armed."""
+    fi = payload.get("failing_input") or {}
+    name = fi.get("instance")
+    trace = [tuple(l) for l in fi.get("trace", [])]
+    if not name:
+        print("replay file carries no failing input (no-failing-input-found); disagreements were:")
+        for d in payload.get("disagreements", [])[:3]:
+            print("  ", d)
+        return 1
+    for tier in ("quick", "thorough"):
+        for job in jobs(tier):
+            inst = job.make()
+            if inst.name != name:
+                continue
+            inst.strict_env = False
+            r = replay_with_monitor(inst, trace)
+            if r:
+                print("cycle %d: %s" % r)
+                print("VIOLATION property=%s replay=(replayed)" % ctx.prop)
+                return 1
+            print("trace no longer violates the property on the current tree")
+            return 0
+    print("instance %r not found" % name)
+    return 2
